@@ -234,6 +234,9 @@ Proof.
   - cbn [skipn nth]. apply IHo. lia.
 Qed.
 
+Lemma singleton_inj : forall (a b : Z), [a] = [b] -> a = b.
+Proof. intros a b H. inversion H. reflexivity. Qed.
+
 Lemma ustar_typeflag_byte : forall e tt t, ustar_typeflag e tt = Some t ->
   nth R_tar_typeflag_offset (snd (ustar_header e tt true)) 0%Z = t.
 Proof.
@@ -247,7 +250,7 @@ Proof.
     - cbn [length]. unfold USTAR_typeflag_offset, USTAR_checksum_offset. lia. }
   cbn [length] in Hs.
   rewrite nth_slice1 in Hs by (rewrite ustar_header_length; unfold USTAR_typeflag_offset; lia).
-  inversion Hs. reflexivity.
+  apply singleton_inj in Hs. exact Hs.
 Qed.
 
 (* ------------------------------------------------------------------ the header round trip *)
@@ -301,4 +304,144 @@ Proof.
   - pose proof (typeflag_dev e t Et Ed) as Hdev.
     rewrite (ustar_ok_rdevmajor e (-1)%Z Hok Hdev), (ustar_ok_rdevminor e (-1)%Z Hok Hdev). reflexivity.
   - reflexivity.
+Qed.
+
+(* ------------------------------------------------------------------ ustar_split_join *)
+Theorem ustar_split_join : forall pp i,
+  USTAR_name_size < length pp -> fst (ustar_name_writes pp) = 0%Z -> ustar_split pp = Some i ->
+  firstn i pp ++ [slash] ++ skipn (S i) pp = pp
+  /\ 0 < length (firstn i pp) <= USTAR_prefix_size
+  /\ 0 < length (skipn (S i) pp) <= USTAR_name_size.
+Proof.
+  intros pp i Hlen Hok Hsp.
+  destruct (ustar_name_writes_ok pp Hok) as [[Hl _] | [j [_ [Hsp' [Hj1 [Hj2 _]]]]]]; [lia|].
+  rewrite Hsp in Hsp'. inversion Hsp'; subst j.
+  pose proof (ustar_split_spec pp i Hlen Hsp) as [S1 [S2 [S3 S4]]].
+  split; [|split].
+  - rewrite <- S4. apply firstn_skipn_middle. assumption.
+  - rewrite firstn_length. lia.
+  - rewrite skipn_length. unfold USTAR_name_size in *. lia.
+Qed.
+
+(* ------------------------------------------------------------------ any partition of the body into write calls *)
+Lemma data_chunks_total : forall chunks rem, (0 <= rem)%Z ->
+  fst (data_chunks rem chunks) = Z.min rem (lenZ (concat chunks))
+  /\ snd (data_chunks rem chunks) = firstn (Z.to_nat rem) (concat chunks).
+Proof.
+  induction chunks as [|c t IH]; intros rem Hrem.
+  - cbn [data_chunks concat fst snd]. unfold lenZ. cbn [length]. rewrite firstn_nil. split; [lia | reflexivity].
+  - cbn [data_chunks concat].
+    set (s := if (rem <? lenZ c)%Z then rem else lenZ c).
+    assert (Hs : (0 <= s <= rem)%Z /\ (s <= lenZ c)%Z).
+    { unfold s, lenZ. destruct (rem <? Z.of_nat (length c))%Z eqn:E; [apply Z.ltb_lt in E | apply Z.ltb_ge in E]; lia. }
+    destruct (IH (rem - s)%Z ltac:(lia)) as [IH1 IH2].
+    destruct (data_chunks (rem - s) t) as [n out]. cbn [fst snd] in *. subst n out.
+    unfold lenZ in *. rewrite app_length. split.
+    + unfold s. destruct (rem <? Z.of_nat (length c))%Z eqn:E; [apply Z.ltb_lt in E | apply Z.ltb_ge in E]; lia.
+    + rewrite firstn_app. f_equal.
+      * unfold s. destruct (rem <? Z.of_nat (length c))%Z eqn:E; [reflexivity|].
+        apply Z.ltb_ge in E. rewrite Nat2Z.id. rewrite firstn_all. symmetry. apply firstn_all2. lia.
+      * unfold s. destruct (rem <? Z.of_nat (length c))%Z eqn:E; [apply Z.ltb_lt in E | apply Z.ltb_ge in E].
+        -- replace (rem - rem)%Z with 0%Z by lia. replace (Z.to_nat rem - length c) with 0 by lia. reflexivity.
+        -- f_equal. lia.
+Qed.
+
+(* the bytes of a body do not depend on how the client cut it into archive_write_data calls *)
+Theorem body_chunking_irrelevant : forall c1 c2 rem, (0 <= rem)%Z -> concat c1 = concat c2 ->
+  data_chunks rem c1 = data_chunks rem c2.
+Proof.
+  intros c1 c2 rem Hrem Heq.
+  destruct (data_chunks_total c1 rem Hrem) as [A1 A2]. destruct (data_chunks_total c2 rem Hrem) as [B1 B2].
+  destruct (data_chunks rem c1), (data_chunks rem c2). cbn [fst snd] in *. subst. rewrite Heq. reflexivity.
+Qed.
+
+(* ------------------------------------------------------------------ the normaliser of the ustar writer is a fixed point *)
+Definition norm_ustar (e : entry) : entry := dir_slash (no_body e).
+
+Lemma filetype_set_size : forall e s, filetype (set_size e s) = filetype e.
+Proof. reflexivity. Qed.
+Lemma filetype_set_path : forall e p, filetype (set_path e p) = filetype e.
+Proof. reflexivity. Qed.
+
+Lemma no_body_idem : forall e, no_body (no_body e) = no_body e.
+Proof.
+  intros e. unfold no_body.
+  destruct (is_some (e_hard e) || is_some (e_sym e) || negb (filetype e =? IFREG)%Z) eqn:E.
+  - cbn [e_hard e_sym set_size]. rewrite filetype_set_size. rewrite E. reflexivity.
+  - rewrite E. reflexivity.
+Qed.
+
+Lemma last_byte_app_slash : forall p, last_byte (p ++ [slash]) = slash.
+Proof. intros. apply last_byte_app1. Qed.
+
+Lemma dir_slash_cases : forall e,
+  dir_slash e = e \/
+  (exists c t, (filetype e =? IFDIR)%Z = true /\ e_path e = Some (c :: t) /\ (last_byte (c :: t) =? slash)%Z = false
+               /\ dir_slash e = set_path e ((c :: t) ++ [slash])).
+Proof.
+  intros e. unfold dir_slash.
+  destruct (filetype e =? IFDIR)%Z eqn:E; [|left; reflexivity].
+  destruct (e_path e) as [[|c t]|] eqn:Ep; try (left; reflexivity).
+  destruct (last_byte (c :: t) =? slash)%Z eqn:El; [left; reflexivity|].
+  right. exists c, t. repeat split; try assumption; reflexivity.
+Qed.
+
+Lemma dir_slash_of_slashed : forall e c t, (filetype e =? IFDIR)%Z = true ->
+  dir_slash (set_path e ((c :: t) ++ [slash])) = set_path e ((c :: t) ++ [slash]).
+Proof.
+  intros e c t E. unfold dir_slash. rewrite filetype_set_path. rewrite E. cbn [set_path e_path].
+  change ((c :: t) ++ [slash]) with (c :: (t ++ [slash])).
+  replace (last_byte (c :: t ++ [slash])) with slash by (symmetry; apply (last_byte_app_slash (c :: t))).
+  rewrite Z.eqb_refl. reflexivity.
+Qed.
+
+Lemma dir_slash_idem : forall e, dir_slash (dir_slash e) = dir_slash e.
+Proof.
+  intros e. destruct (dir_slash_cases e) as [H | [c [t [E [Ep [El H]]]]]].
+  - rewrite H. exact H.
+  - rewrite H. apply dir_slash_of_slashed. assumption.
+Qed.
+
+Lemma no_body_set_path : forall e p, no_body (set_path e p) = set_path (no_body e) p.
+Proof.
+  intros. unfold no_body. cbn [set_path e_hard e_sym]. rewrite filetype_set_path.
+  destruct (is_some (e_hard e) || is_some (e_sym e) || negb (filetype e =? IFREG)%Z); reflexivity.
+Qed.
+
+Lemma filetype_no_body : forall e, filetype (no_body e) = filetype e.
+Proof. intros. unfold no_body. destruct (is_some (e_hard e) || is_some (e_sym e) || negb (filetype e =? IFREG)%Z); reflexivity. Qed.
+Lemma path_no_body : forall e, e_path (no_body e) = e_path e.
+Proof. intros. unfold no_body. destruct (is_some (e_hard e) || is_some (e_sym e) || negb (filetype e =? IFREG)%Z); reflexivity. Qed.
+
+Lemma no_body_dir_slash : forall e, no_body (dir_slash e) = dir_slash (no_body e).
+Proof.
+  intros e. destruct (dir_slash_cases e) as [H | [c [t [E [Ep [El H]]]]]].
+  - rewrite H. symmetry.
+    (* dir_slash leaves e alone, hence also no_body e (same type and path) *)
+    unfold dir_slash in *. rewrite filetype_no_body, path_no_body.
+    destruct (filetype e =? IFDIR)%Z; [|reflexivity].
+    destruct (e_path e) as [[|c t]|] eqn:Ep; try reflexivity.
+    destruct (last_byte (c :: t) =? slash)%Z eqn:El; [reflexivity|].
+    (* then dir_slash e <> e: impossible *)
+    exfalso. apply (f_equal e_path) in H. cbn [set_path e_path] in H. rewrite Ep in H.
+    inversion H as [H1]. apply (f_equal (@length Z)) in H1. rewrite app_length in H1. cbn [length] in H1. lia.
+  - rewrite H. rewrite no_body_set_path. unfold dir_slash. rewrite filetype_no_body, path_no_body. rewrite E, Ep, El. reflexivity.
+Qed.
+
+Theorem norm_ustar_idem : forall e, norm_ustar (norm_ustar e) = norm_ustar e.
+Proof.
+  intros e. unfold norm_ustar. rewrite no_body_dir_slash. rewrite no_body_idem. apply dir_slash_idem.
+Qed.
+
+(* writing the normalised entry produces exactly the bytes of the original entry: the read-back form is
+   a fixed point of the writer *)
+Theorem ustar_entry_norm_fixed : forall full e, ustar_entry full (norm_ustar e) = ustar_entry full e.
+Proof.
+  intros full e. unfold ustar_entry.
+  assert (Hp : is_some (e_path (norm_ustar e)) = is_some (e_path e)).
+  { unfold norm_ustar. destruct (dir_slash_cases (no_body e)) as [H | [c [t [E [Ep [El H]]]]]]; rewrite H.
+    - rewrite path_no_body. reflexivity.
+    - cbn [set_path e_path is_some]. rewrite path_no_body in Ep. rewrite Ep. reflexivity. }
+  destruct (e_path (norm_ustar e)) eqn:E1; destruct (e_path e) eqn:E2; cbn [is_some] in Hp; try discriminate; [|reflexivity].
+  fold (norm_ustar (norm_ustar e)). fold (norm_ustar e). rewrite norm_ustar_idem. reflexivity.
 Qed.
